@@ -43,7 +43,7 @@ HintOK(h) == h \in {"none", "same", "same_expired"}      \* other: another subje
 RowsB == { [tbl |-> "B", flow |-> f, max_age |-> ma, offset |-> off, prompt |-> pr, hint |-> h,
             issued |-> MaxOK(ma, off) /\ PromptOK(pr, off) /\ HintOK(h) /\ NotFuture(off)] :
             f \in {"code", "implicit_idt_token", "hybrid_code_idt"}, ma \in {0, 2}, off \in Offsets, pr \in {"", "none", "login", "consent", "login consent", "none login", "bogus"},
-            h \in {"none", "same", "other", "same_expired", "garbage", "no_sub", "foreign_key"} }
+            h \in {"none", "same", "other", "same_expired", "other_expired", "garbage", "no_sub", "foreign_key", "foreign_key_expired"} }   \* an expired hint is still a hint: only its expiry is forgiven
 
 ASSUME \A r \in ValidA : r.issued => (r.openid /\ r.subject # "")
 ASSUME \A r \in ValidA : (r.flow \in {"refresh", "refresh_hybrid"} => ~r.c_hash)
